@@ -441,7 +441,7 @@ func convTypeToTarget(source interface{}, target reflect.Type) (interface{}, err
 			if IsNull(source) {
 				return "", nil
 			}
-			return fmt.Sprintf("%v", source), nil
+			return sprintValue(source), nil
 		}
 		return nil, fmt.Errorf("convTypeToTarget %T not conv to %v", source, target)
 	}
@@ -1039,8 +1039,72 @@ func convToString(v interface{}) string {
 	case *decimal.Big:
 		return n.String()
 	default:
-		return fmt.Sprintf("%v", v)
+		return sprintValue(v)
 	}
+}
+
+// sprintValue is fmt's %v for a value that does not contain itself. A map or
+// slice that does (a local bound to `this`, or cyclic caller data) would send
+// fmt into unbounded recursion, which ends the process; it is named instead.
+func sprintValue(v interface{}) string {
+	if containsItself(reflect.ValueOf(v), map[uintptr]bool{}) {
+		return fmt.Sprintf("%T(cyclic)", v)
+	}
+	return fmt.Sprintf("%v", v)
+}
+
+// containsItself reports whether walking rv the way fmt does (through
+// interfaces, maps, slices, arrays and struct fields; nested pointers are
+// printed as addresses) reaches a map or slice that is still being walked.
+func containsItself(rv reflect.Value, open map[uintptr]bool) bool {
+	switch rv.Kind() {
+	case reflect.Interface:
+		return !rv.IsNil() && containsItself(rv.Elem(), open)
+	case reflect.Ptr:
+		if rv.IsNil() || open[rv.Pointer()] {
+			return false
+		}
+		open[rv.Pointer()] = true
+		defer delete(open, rv.Pointer())
+		return containsItself(rv.Elem(), open)
+	case reflect.Map, reflect.Slice:
+		if rv.IsNil() {
+			return false
+		}
+		p := rv.Pointer()
+		if open[p] {
+			return true
+		}
+		open[p] = true
+		defer delete(open, p)
+		if rv.Kind() == reflect.Map {
+			iter := rv.MapRange()
+			for iter.Next() {
+				if containsItself(iter.Key(), open) || containsItself(iter.Value(), open) {
+					return true
+				}
+			}
+			return false
+		}
+		for i := 0; i < rv.Len(); i++ {
+			if containsItself(rv.Index(i), open) {
+				return true
+			}
+		}
+	case reflect.Array:
+		for i := 0; i < rv.Len(); i++ {
+			if containsItself(rv.Index(i), open) {
+				return true
+			}
+		}
+	case reflect.Struct:
+		for i := 0; i < rv.NumField(); i++ {
+			if containsItself(rv.Field(i), open) {
+				return true
+			}
+		}
+	}
+	return false
 }
 
 func convToNumber(v interface{}) *decimal.Big {
